@@ -398,13 +398,20 @@ class PeakLoadWindow(Strategy):
             vehicle.battery.soc = old_soc
 
         # use surplus power to charge above desired soc
+        # surplus is handed out once (vehicle by vehicle), within the limits of the charging station
+        surplus = -min(timesteps[0]["power"], 0)
         for vehicle in vehicles.values():
-            vehicle.schedule -= min(timesteps[0]["power"], 0)
+            cs_id = vehicle.connected_charging_station
+            planned = vehicle.schedule
+            if surplus > 0:
+                cs = self.world_state.charging_stations[cs_id]
+                vehicle.schedule = max(util.clamp_power(planned + surplus, vehicle, cs), planned)
             if vehicle.schedule > 0:
-                cs_id = vehicle.connected_charging_station
                 p = vehicle.battery.load(self.interval, target_power=vehicle.schedule)["avg_power"]
                 charging_stations[cs_id] = p
                 gc.add_load(cs_id, p)
+                # power drawn in addition to the plan is no longer available for other vehicles
+                surplus -= max(p - max(planned, 0), 0)
 
         bat_info = dict()
         gc_loads = gc.current_loads.copy()
